@@ -28,7 +28,7 @@ let parse_prim s =
       | [k; e] -> (z_of_string k, parse_el e) | _ -> failwith "bad pair") kvs)
   | ["CP"; x; y] -> PCopy (v x, v y)
   | ["IS"; x; i; e] -> PIdxSet (v x, z_of_string i, parse_el e)
-  | ["PL"; x; y; e] -> PPlus (v x, v y, parse_el e)
+  | ["PL"; x; y; e] | ["PL"; x; y; e; _] -> PPlus (v x, v y, parse_el e)   (* 5th field: how the source writes the left operand *)
   | ["RP"; x; y; n] -> PRepeat (v x, v y, z_of_string n)
   | ["SL"; x; y; l; r] -> PSlice (v x, v y, z_of_string l, z_of_string r)
   | ["RS"; x; y] -> PRest (v x, v y)
@@ -76,13 +76,32 @@ let () = iter_lines (fun line ->
        reference semantics and its snapshot oracle only *)
     if List.exists (fun o -> String.length o > 0 && o.[0] = 'V') (String.split_on_char ';' opss)
     then print_endline (id ^ " SKIP variadic call (direct oracle only)") else
-    let ops = List.map parse_op (String.split_on_char ';' opss) in
+    (* X:<hex of the source>:<op>&<op>... = ONE source statement whose effect is these machine statements in a row
+       (closures over a local array, a memoized maker: the local / temporary is a hidden variable, number >= 16, not reported) *)
+    let parse_top o =
+      if String.length o > 2 && o.[0] = 'X' then
+        (match String.split_on_char ':' o with
+         | _ :: _ :: rest -> List.map parse_op (String.split_on_char '&' (String.concat ":" rest))
+         | _ -> failwith "bad X op")
+      else [parse_op o] in
+    let is_x o = String.length o > 2 && o.[0] = 'X' in
+    let ops = List.map (fun o -> (is_x o, parse_top o)) (String.split_on_char ';' opss) in
     let st = ref empty_state and ps = ref [] in
     let dom = ref false in
-    let outs = List.map (fun op ->
-      let (st', status) = op_step cfg orc !st op in
-      let (ps', pstatus) = p_op_step !ps op in
-      st := st'; ps := ps';
+    let visible l = List.filter (fun (x, _) -> int_of_nat x < 16) l in
+    let outs = List.map (fun (isx, group) ->
+      let rec go ops (lst, lps) =
+        match ops with
+        | [] -> (lst, lps)
+        | op :: rest ->
+          let (st', status) = op_step cfg orc !st op in
+          let (ps', pstatus) = p_op_step !ps op in
+          st := st'; ps := ps';
+          (match status with
+           | Done _ -> go rest (status, pstatus)
+           | _ -> (status, pstatus)) in
+      let (status, pstatus) = go group (Failed, PFailed) in
+      let st' = { !st with sstore = visible !st.sstore } and ps' = visible !ps in
       let h = st'.sheap in
       let head, phead = (match status with
         | Done (RV x) -> "ok=" ^ rd h x
@@ -96,6 +115,9 @@ let () = iter_lines (fun line ->
         | PFailed -> "err"
         | POutDom -> "dom"
         | PIsStuck -> "STUCK") in
+      (* the value of an X statement (a function text, ...) is not part of the observation: only ok / err *)
+      let head = if isx && String.length head > 2 && String.sub head 0 3 = "ok=" then "ok" else head in
+      let phead = if isx && String.length phead > 2 && String.sub phead 0 3 = "ok=" then "ok" else phead in
       let bs = List.map (fun (x, xv) -> Printf.sprintf "v%d=%s%s" (int_of_nat x) (kind xv) (rd h xv)) (sorted st'.sstore) in
       let pbs = List.map (fun (x, p) -> Printf.sprintf "v%d=%s" (int_of_nat x) (render p)) (sorted ps') in
       let mbs = List.map (fun (x, xv) -> Printf.sprintf "v%d=%s" (int_of_nat x) (rd h xv)) (sorted st'.sstore) in
